@@ -33,7 +33,8 @@ def check(case):
     rd = interp.interpret(node, spec)
     f = []
     if g.triples != rd.triples:
-        return []          # C04's business
+        # the diagnostics are about these triples; a decoded graph that differs from the documented reading (C04) makes them moot
+        return [('decoded-triples-differ-from-text', '%s: %r, text says %r' % (fmt(node), g.triples[:8], rd.triples[:8]))]
     if case.get('strip'):
         h = Graph(g.triples, top=g.top)
         ctx = layout.node_contexts(h)
